@@ -16,7 +16,7 @@ LazyTable MC  spec/LazyTable.tla: builder statements of _maybe_precompute() / sc
               complete operations on the same object, results are compared with the sequential results and the
               observations are judged by spec/Trace_LazyTable.tla (invariants and step relation of LazyTable).
 """
-import os, sys, copy, importlib.util, multiprocessing as mp, time
+import os, sys, importlib.util, multiprocessing as mp, time, concurrent.futures as cf
 
 from ..common import SPEC, Scratch, rng, MachineryError
 from ..report import Report
@@ -36,6 +36,44 @@ def _rw_cfg(R, W, P, invariants="TypeOK Mutex ReleaseHeld CountersOK", props="Te
     if props:
         s += "PROPERTIES %s\n" % props
     return s
+
+
+def _instances(tier):
+    if tier == "thorough":
+        return [(2, 2, 1, True), (2, 2, 2, True), (3, 2, 1, True), (2, 3, 1, True), (3, 3, 1, True), (3, 2, 2, False)]
+    return [(2, 2, 1, True), (2, 1, 2, True), (2, 2, 2, False), (3, 2, 1, False)]
+
+
+LT_BASE = "CONSTANTS N = %d  EARLY_PUBLISH = %s  SPLIT_ASSIGN = %s\nSPECIFICATION Spec\n"
+LT_INV = ("INVARIANTS TypeOK PubEmptyOrComplete CoordsOldOrNew AloneOK LocIsPrefix ReaderOK FinalOK\n"
+          "PROPERTIES StepsAreEffects BuilderFinishes\n")
+
+
+def _all_tlc_runs(tier, wd):
+    """every model-checking run of this check, run concurrently (threads only wait for the JVMs; they are
+    all joined before any process is forked).  name -> TlcResult"""
+    jobs = {}
+    for (R, W, P, walk) in _instances(tier):
+        iwd = os.path.join(wd, "rw_%d%d%d" % (R, W, P))
+        jobs["rw_%d%d%d" % (R, W, P)] = (RW_MC, _rw_cfg(R, W, P), iwd, dict(
+            workers=8, deadlock=True, dump=os.path.join(iwd, "graph") if walk else None, timeout=1500,
+            coverage=(R, W, P) == (2, 2, 1)))
+    small = dict(workers=2, timeout=300)
+    jobs["rw_share"] = (RW_MC, _rw_cfg(2, 2, 1, invariants="ReadersNeverShare", props=""), os.path.join(wd, "rw_share"), dict(small, deadlock=True))
+    jobs["rw_strong"] = (RW_MC, _rw_cfg(2, 2, 1, invariants="", props="StrongWriterPreference"), os.path.join(wd, "rw_strong"), dict(small, deadlock=True))
+    jobs["rw_bad1"] = (RW_MC, _rw_cfg(2, 2, 1, invariants="Mutex", props="", nxt="BadNextNoExcl"), os.path.join(wd, "rw_bad1"), dict(small))
+    jobs["rw_bad2"] = (RW_MC, _rw_cfg(2, 2, 1, invariants="TypeOK", props="", nxt="BadNextNoQueueRel"), os.path.join(wd, "rw_bad2"), dict(small, deadlock=True))
+    N = 8 if tier == "thorough" else 5
+    jobs["lt"] = (LT_MC, LT_BASE % (N, "FALSE", "FALSE") + LT_INV, os.path.join(wd, "lt"), dict(small, deadlock=True, coverage=True))
+    jobs["lt_EARLY_PUBLISH"] = (LT_MC, LT_BASE % (N, "TRUE", "FALSE") + "INVARIANTS ReaderOK\n", os.path.join(wd, "lt_e"), dict(small, deadlock=True))
+    jobs["lt_SPLIT_ASSIGN"] = (LT_MC, LT_BASE % (N, "FALSE", "TRUE") + "INVARIANTS ReaderOK\n", os.path.join(wd, "lt_s"), dict(small, deadlock=True))
+    out = {}
+    with cf.ThreadPoolExecutor(max_workers=6) as ex:
+        futs = {k: ex.submit(tlc.run, m, cfg, d, **kw) for k, (m, cfg, d, kw) in jobs.items()}
+        for k, f in futs.items():
+            out[k] = f.result()
+    out["lt_N"] = N
+    return out
 
 
 # ======================================================================================================
@@ -97,20 +135,16 @@ MUTANTS = {
 }
 
 
-def _rwlock_part(rep, tier, wd):
+def _rwlock_part(rep, tier, wd, J):
     rwmod = _real_rwmod()
-    if tier == "thorough":
-        instances = [(2, 2, 1, True), (2, 2, 2, True), (3, 2, 1, True), (2, 3, 1, True), (3, 3, 1, False), (3, 2, 2, False)]
-    else:
-        instances = [(2, 2, 1, True), (2, 1, 2, True), (2, 2, 2, False), (3, 2, 1, False)]
+    instances = _instances(tier)
     total_edges = 0
     first = None
     for (R, W, P, walk) in instances:
         tag = "%dR+%dW x %d pass%s" % (R, W, P, "es" if P > 1 else "")
         iwd = os.path.join(wd, "rw_%d%d%d" % (R, W, P))
         dump = os.path.join(iwd, "graph") if walk else None
-        res = tlc.run(RW_MC, _rw_cfg(R, W, P), iwd, workers=NPROC, deadlock=True, dump=dump, timeout=1500,
-                      coverage=(R, W, P) == (2, 2, 1))
+        res = J["rw_%d%d%d" % (R, W, P)]
         if res.violated:
             # the model is bisimilar to the code on this instance (walk below), so this is a finding about the code
             tr = res.trace()
@@ -154,12 +188,11 @@ def _rwlock_part(rep, tier, wd):
         if (R, W, P) == (2, 2, 1):
             p0 = paths[len(paths) // 2]
             rep.sample({"rwlock_schedule": [g.out[s][k][0] for s, k in p0],
-                        "final_state": {k: str(v) for k, v in g.nodes[g.out[p0[-1][0]][p0[-1][1]][2]].items()}})
+                        "spec_state_after": {k: str(v) for k, v in g.nodes[g.out[p0[-1][0]][p0[-1][1]][2]].items()}})
             _walk_selftests(rep, g, info, paths, rwmod, wd)
 
     # ---- readers do share: the invariant "never two readers inside" must be violated
-    r = tlc.run(RW_MC, _rw_cfg(2, 2, 1, invariants="ReadersNeverShare", props=""), os.path.join(wd, "rw_share"), workers=4,
-                deadlock=True, timeout=300)
+    r = J["rw_share"]
     if "ReadersNeverShare" not in r.violated:
         if r.ok:
             rep.violation("C20:rwlock-readers-never-share", "no reachable state has two readers inside", {})
@@ -171,20 +204,17 @@ def _rwlock_part(rep, tier, wd):
             "kind": "MC, expected invariant violation", "witness_length": len(tr),
             "witness_last_pc": str(tr[-1][1].get("pc")) if tr else ""}
     # ---- documented non-guarantee
-    r = tlc.run(RW_MC, _rw_cfg(2, 2, 1, invariants="", props="StrongWriterPreference"), os.path.join(wd, "rw_strong"), workers=4,
-                deadlock=True, timeout=300)
+    r = J["rw_strong"]
     if not r.completed and not r.violated:
         raise MachineryError("TLC failed on StrongWriterPreference:\n" + r.clean()[-2000:])
     rep.cov["parts"]["StrongWriterPreference (not part of C20; documentation)"] = {
         "kind": "MC", "result": "refuted: a reader that already holds no_readers, and the next queued reader competing for "
         "no_readers, are admitted after a writer has called writer_acquire()" if r.violated else "holds"}
     # ---- self-test: wrong lock variants must be refuted
-    r = tlc.run(RW_MC, _rw_cfg(2, 2, 1, invariants="Mutex", props="", nxt="BadNextNoExcl"), os.path.join(wd, "rw_bad1"), workers=4,
-                timeout=300)
+    r = J["rw_bad1"]
     if "Mutex" not in r.violated:
         raise MachineryError("self-test: writer without no_writers was not refuted (Mutex)")
-    r = tlc.run(RW_MC, _rw_cfg(2, 2, 1, invariants="TypeOK", props="", nxt="BadNextNoQueueRel"), os.path.join(wd, "rw_bad2"),
-                workers=4, deadlock=True, timeout=300)
+    r = J["rw_bad2"]
     if "<deadlock>" not in r.violated:
         raise MachineryError("self-test: reader that keeps readers_queue was not refuted (deadlock)")
     rep.cov["parts"]["selftest RWLock spec variants"] = "BadNextNoExcl refuted (Mutex), BadNextNoQueueRel refuted (deadlock)"
@@ -425,21 +455,18 @@ def _point(task):
             "_gran": "opcode" if opcode else "line", "_curve": name}
 
 
-def _lazy_part(rep, tier, wd):
+def _lazy_part(rep, tier, wd, J):
     # ---- MC
-    base = "CONSTANTS N = %d  EARLY_PUBLISH = %s  SPLIT_ASSIGN = %s\nSPECIFICATION Spec\n"
-    inv = "INVARIANTS TypeOK PubEmptyOrComplete CoordsOldOrNew AloneOK LocIsPrefix ReaderOK FinalOK\nPROPERTIES StepsAreEffects BuilderFinishes\n"
-    N = 8 if tier == "thorough" else 5
-    res = tlc.run(LT_MC, base % (N, "FALSE", "FALSE") + inv, os.path.join(wd, "lt"), workers=4, deadlock=True, timeout=300, coverage=True)
+    N = J["lt_N"]
+    res = J["lt"]
     if res.violated:
         rep.violation("C20:lazytable-model-" + res.violated[0].strip("<>"), "LazyTable model: TLC reports %s" % res.violated, {"out": res.clean()[-3000:]})
     elif not res.ok:
         raise MachineryError("TLC failed on MC_LazyTable:\n" + res.clean()[-3000:])
     rep.add_mc("MC_LazyTable N=%d: table empty-or-complete, coordinates old-or-new, reader result = sequential result, "
                "publication only when complete, every builder statement is an allowed effect, builder finishes" % N, res, {"N": N})
-    for sw, cfg in (("EARLY_PUBLISH", base % (N, "TRUE", "FALSE")), ("SPLIT_ASSIGN", base % (N, "FALSE", "TRUE"))):
-        bad = tlc.run(LT_MC, cfg + "INVARIANTS ReaderOK\n", os.path.join(wd, "lt_" + sw), workers=2, deadlock=True, timeout=300)
-        if "ReaderOK" not in bad.violated:
+    for sw in ("EARLY_PUBLISH", "SPLIT_ASSIGN"):
+        if "ReaderOK" not in J["lt_" + sw].violated:
             raise MachineryError("self-test: LazyTable with %s = TRUE was not refuted (ReaderOK)" % sw)
     rep.cov["parts"]["selftest LazyTable variants"] = "EARLY_PUBLISH and SPLIT_ASSIGN each refuted by TLC (ReaderOK: the reader sees a partial table / a mixed triple)"
 
@@ -500,6 +527,7 @@ def _lazy_part(rep, tier, wd):
     total_stats = {"states": 0, "transitions": 0, "shards": 0, "tlc_wall_s": 0.0}
     rejected = []
     canaries = {}
+    vjobs = []
     for name in ("tiny", "nist256p"):
         sub = [e for e in events if e["_curve"] == name]
         Nn = sub[0]["n"]
@@ -515,12 +543,16 @@ def _lazy_part(rep, tier, wd):
             tid += 1
             cn["tid"] = tid
             canaries[tid] = cn["_want"]
-        rej, st = tlc.validate_trace(LT_TRACE, "CONSTANT N = %d\nINIT Init\nNEXT Next\n" % Nn, sub + can,
-                                     os.path.join(wd, "tr_" + name), shards=NPROC, by="grp", timeout=1200)
-        for k in ("states", "transitions", "shards"):
-            total_stats[k] += st[k]
-        total_stats["tlc_wall_s"] = round(total_stats["tlc_wall_s"] + st["tlc_wall_s"], 2)
-        rejected += rej
+        vjobs.append((LT_TRACE, "CONSTANT N = %d\nINIT Init\nNEXT Next\n" % Nn, sub + can, os.path.join(wd, "tr_" + name)))
+    with cf.ThreadPoolExecutor(max_workers=2) as ex:
+        futs = [ex.submit(tlc.validate_trace, m, cfg, evl, d, shards=NPROC // 2 if len(evl) < 800 else NPROC, by="grp", timeout=1200)
+                for (m, cfg, evl, d) in vjobs]
+        for f in futs:
+            rej, st = f.result()
+            for k in ("states", "transitions", "shards"):
+                total_stats[k] += st[k]
+            total_stats["tlc_wall_s"] = round(max(total_stats["tlc_wall_s"], st["tlc_wall_s"]), 2)
+            rejected += rej
     rej_by = {}
     for x in rejected:
         rej_by.setdefault(x[1], x[2])
@@ -554,17 +586,51 @@ def _lazy_part(rep, tier, wd):
 def run(tier):
     rep = Report("C20", tier)
     with Scratch("c20") as wd:
-        edges = _rwlock_part(rep, tier, wd)
-        nev = _lazy_part(rep, tier, wd)
+        J = _all_tlc_runs(tier, wd)
+        edges = _rwlock_part(rep, tier, wd, J)
+        nev = _lazy_part(rep, tier, wd, J)
     rep.cov["exhaustive"] = True
     rep.cov["explanation"] = ("RWLock: complete state graphs of the bounded instances, every edge replayed on the real lock (%d edges); "
                               "lazy table: every line-level (tiny curve and scale(): also byte-code level) pre-emption point of thread A"
-                              "%s, %d points" % (edges, "" if tier == "thorough" else " (NIST256p table construction: sampled subset of the line-level points in the quick tier)", nev))
+                              "%s, %d points" % (edges, " (NIST256p table construction: also byte-code level)" if tier == "thorough" else "", nev))
     rep.assumptions += [
         "threading.Lock: acquire blocks while held, release by any thread frees it; each controlled lock wraps a real lock that must agree",
         "CPython switches threads only between byte codes (GIL); line-level pre-emption for the NIST256p table in the quick tier, byte-code level in the thorough tier",
         "pre-emption inside the lock code only at lock calls: the light-switch counters are accessed only while the switch mutex is held (checked: counter values are compared after every step)",
-        "bounded instances: up to 3 readers + 2 writers x 2 passes / 3+3 x 1 (model), up to 3+2 x 1 and 2+2 x 2 (walk on the real lock)",
+        "bounded instances: up to 3 readers + 2 writers x 2 passes / 3+3 x 1 (model); walk on the real lock: 2+2 x 1 and 2+1 x 2 (quick), also 2+2 x 2, 3+2 x 1, 2+3 x 1, 3+3 x 1 (thorough)",
         "thread B's operations are complete (not themselves pre-empted); two concurrent builders are covered only as 'B builds its own table while A is stopped'",
     ]
     return rep
+
+
+def replay(path):
+    """bin/check C20 --replay <file>: re-run one reported schedule / pre-emption point on the real code"""
+    import json, re
+    d = json.load(open(path))
+    data = d.get("data") or {}
+    if "schedule" in data and "instance" in data:
+        R, W, P = data["instance"]
+        real = sched.RealRW(_real_rwmod(), R, W, P)
+        try:
+            for lab in data["schedule"]:
+                real.step(int(re.match(r"\w+\((\d+)\)", lab).group(1)))
+            got = json.loads(json.dumps(sched.describe(real.project()), default=list))
+        finally:
+            real.close(abandon=True)
+        print("schedule:", " ".join(data["schedule"]))
+        print("expected:", data["expected"])
+        print("real    :", got)
+        same = got == json.loads(json.dumps(data["expected"], default=list))
+        print("REPRODUCED" if not same else "not reproduced (real state equals the expected state now)")
+        return 0 if same else 1
+    if "idx" in data and "_curve" in data:
+        op = data["_gran"] == "opcode"
+        K = _count_events(data["_curve"], data["mode"], op)
+        e = _point((data["_curve"], data["mode"], op, True, data["idx"], "replay", 1, K))
+        print(json.dumps(e, indent=1, default=str))
+        bad = e["res_bad"] or e["f_res_bad"] or not (e["pub_ok"] and e["co_ok"] and e["b_ok"] and e["b_co_ok"] and e["f_ok"] and e["f_co_ok"]) \
+            or e["pub_len"] not in (0, e["n"])
+        print("REPRODUCED" if bad else "not reproduced")
+        return 1 if bad else 0
+    print("nothing to replay in", path)
+    return 2
